@@ -58,8 +58,7 @@ CHECKS = {
                      '(started / mid-chain / generator step / real second thread at the idle wait), stop kind, chain lengths and run '
                      'cycles are solver-enumerated choices and the exit code is an unconstrained z3 Int; started/stopped exactly once, '
                      'everything fired is dispatched before run() ends, exit code equality discharged by z3, stop() when not running is a no-op',
-                note='trusted: z3/pathex, the idle-wait double, no-op signal/atexit; three recorded known findings (stop(code) in a handler '
-                     'loses the code; SystemExit(code) in a handler skips `stopped` and leaves events queued)'),
+                note='trusted: z3/pathex, the idle-wait double (a real second thread performs the scripted stop at the untimed wait), no-op signal/atexit'),
     'C09': dict(engine='pathex', technique=TECH, ref='DESIGN.md 4/C09',
                 text='bounded symbolic execution of the real Timer / generate_events / fall-back idle code with the wall clock as a '
                      'symbolic variable: intervals, clock advances between iterations and idle-wait durations are z3 Reals; not-early, '
